@@ -115,6 +115,9 @@ pub struct Gen {
     txs_done: u32,
     steps_left_in_tx: u32,
     finished: bool,
+    /// the bucket and key of the previous key-level operation: one operation in six goes to
+    /// the same key again (put-put, put-delete, delete-put, put-get: what applications do)
+    last: Option<(Path, Blob)>,
     pub macros_used: std::collections::BTreeMap<&'static str, u64>,
 }
 
@@ -122,12 +125,12 @@ impl Gen {
     pub fn new(seed: u64, pagesize: u64) -> Gen {
         let mut r = Rng::new(seed);
         let cfg = GenCfg::draw(&mut r, pagesize);
-        Gen { cfg, r, queue: VecDeque::new(), tag: 1, txs_done: 0, steps_left_in_tx: 0, finished: false, macros_used: Default::default() }
+        Gen { cfg, r, queue: VecDeque::new(), tag: 1, txs_done: 0, steps_left_in_tx: 0, finished: false, last: None, macros_used: Default::default() }
     }
 
     pub fn with_cfg(seed: u64, cfg: GenCfg) -> Gen {
         let r = Rng::new(seed ^ 0x1234_5678_9abc);
-        Gen { cfg, r, queue: VecDeque::new(), tag: 1, txs_done: 0, steps_left_in_tx: 0, finished: false, macros_used: Default::default() }
+        Gen { cfg, r, queue: VecDeque::new(), tag: 1, txs_done: 0, steps_left_in_tx: 0, finished: false, last: None, macros_used: Default::default() }
     }
 
     pub fn key_bytes(&self, i: u32) -> Vec<u8> {
@@ -540,6 +543,7 @@ impl Gen {
         let kind = self.r.weighted(&w);
         let path = self.pick_path(view, true).unwrap();
         let depth_ok = (path.len() as u32) < self.cfg.max_depth + 1;
+        let again = if kind <= 3 && self.r.chance(1, 6) { self.last.clone() } else { None };
         match kind {
             0 => {
                 let key = if bad {
@@ -547,6 +551,8 @@ impl Gen {
                 } else {
                     self.pick_key()
                 };
+                let (path, key) = again.unwrap_or((path, key));
+                self.last = Some((path.clone(), key.clone()));
                 let val = self.val();
                 let via = self.via();
                 Step::Put { path, key, val, via }
@@ -557,6 +563,8 @@ impl Gen {
                 } else {
                     self.existing(view, &path, Some(true)).map(Blob::Raw).unwrap_or_else(|| self.pick_key())
                 };
+                let (path, key) = again.unwrap_or((path, key));
+                self.last = Some((path.clone(), key.clone()));
                 Step::Delete { path, key }
             }
             2 | 3 => {
@@ -565,6 +573,8 @@ impl Gen {
                 } else {
                     self.pick_key()
                 };
+                let (path, key) = again.unwrap_or((path, key));
+                self.last = Some((path.clone(), key.clone()));
                 if kind == 2 {
                     Step::Get { path, key }
                 } else {
@@ -576,6 +586,7 @@ impl Gen {
                 let path = if self.r.chance(1, 4) { vec![] } else { path };
                 let name = self.bucket_name();
                 let via = self.via();
+                self.last = Some((path.clone(), name.clone()));
                 if kind == 4 {
                     Step::CreateBucket { path, name, via }
                 } else {
